@@ -497,7 +497,7 @@ def judge_endpoints(ops, rep, ctx, clauses):
                 continue
             # ---- accept / reject, class (C05, C02, C07, C08)
             if exp is not None and not accepted:
-                if {'c02', 'c05', 'c01', 'c07', 'c08', 'c10'} & clauses:
+                if {'c02', 'c05', 'c01', 'c07', 'c08', 'c10'} & clauses or ('c14' in clauses and head == 'err ' + IDX):
                     sig = 'wellformed-rejected'
                     if head == 'err ' + OVER and 'c07' in clauses:
                         sig = 'limit-boundary'
@@ -506,7 +506,8 @@ def judge_endpoints(ops, rep, ctx, clauses):
                 continue
             if exp is None and accepted:
                 sig = {OVER: 'oversized-accepted', SIZE: 'table-size-accepted', IDX: 'bad-index-accepted'}.get(want, 'malformed-accepted')
-                relevant = bool({'c05', 'c02'} & clauses) or ('c07' in clauses and want == OVER) or ('c08' in clauses and want == SIZE)
+                relevant = bool({'c05', 'c02'} & clauses) or ('c07' in clauses and want == OVER) or ('c08' in clauses and want == SIZE) \
+                    or ('c14' in clauses and want == IDX)
                 if relevant:
                     fail(i, sig, 'block %s accepted (%s); it must be refused with %s' % (hx(data)[:80], head[:80], want))
                 rd.sync = False
@@ -525,7 +526,7 @@ def judge_endpoints(ops, rep, ctx, clauses):
                 continue
             # ---- accepted by both: fields, classes, table
             got = parse_headers(head[3:])
-            if {'c02', 'c01', 'c05', 'c15', 'c07'} & clauses:
+            if {'c02', 'c01', 'c05', 'c15', 'c07', 'c14'} & clauses:
                 if [(n, v) for n, v, _ in got] != [(n, v) for n, v, _ in exp]:
                     fail(i, 'fields-differ', 'decode(%s) = %s, RFC 7541 meaning is %s' % (hx(data)[:80], _short(got), _short(exp)))
                     rd.sync = False
